@@ -1,6 +1,7 @@
 // Native replay for the typed-header lemmas (property C16): write a header with the real writer of /repo, parse the text
 // with the real parser, compare, write again.
 // usage: hdr_rt cachecontrol <directive 0..11> <delta> | hdr_rt connection <0..2> | hdr_rt encoding <n> | hdr_rt date <seconds since the epoch>
+//        | hdr_rt contentlength <decimal value below 2^64>
 // exit 0: the round trip holds on this value; exit 1: it does not; exit 3: usage
 #include <pistache/http_header.h>
 #include <pistache/http_defs.h>
@@ -60,6 +61,18 @@ int main(int argc, char** argv)
             Header::Connection r;
             r.parseRaw(text.data(), text.size());
             if (r.control() != c) { printf("REPRODUCED: Connection %d written as \"%s\" parses back as %d\n", int(c), text.c_str(), int(r.control())); return 1; }
+            return 0;
+        }
+        if (!strcmp(argv[1], "contentlength")) {
+            uint64_t v = strtoull(argv[2], nullptr, 10);
+            Header::ContentLength w(v);
+            std::ostringstream o1; w.write(o1);
+            std::string text = o1.str();
+            Header::ContentLength r;
+            r.parse(text);
+            if (r.value() != v) { printf("REPRODUCED: Content-Length %llu written as \"%s\" parses back as %llu\n", (unsigned long long)v, text.c_str(), (unsigned long long)r.value()); return 1; }
+            std::ostringstream o2; r.write(o2);
+            if (o2.str() != text) { printf("REPRODUCED: Content-Length %llu written again as \"%s\"\n", (unsigned long long)v, o2.str().c_str()); return 1; }
             return 0;
         }
         if (!strcmp(argv[1], "encoding")) {
